@@ -73,9 +73,30 @@ def rename_arg(spec):
     if spec is None:
         return None
     pairs = [(a, b) for a, b in spec["pairs"]]
-    if spec["as"] == "dict":
+    how = spec["as"]
+    if how == "dict":
         return dict(pairs)
+    if how == "tuple":
+        return tuple(pairs)
+    if how == "gen":                      # a one-shot iterable of pairs
+        return (p for p in pairs)
+    if how == "items":                    # a dict-like that only offers keys() and __getitem__
+        return _KeysOnly(dict(pairs))
     return pairs
+
+
+class _KeysOnly:
+    def __init__(self, d):
+        self._d = d
+
+    def keys(self):
+        return self._d.keys()
+
+    def __getitem__(self, k):
+        return self._d[k]
+
+    def __bool__(self):
+        return bool(self._d)
 
 
 def rename_map(spec):
@@ -236,16 +257,17 @@ class C20(Property):
         "Flatland.C20.Proofs.include_omit_exclusive",
         "Flatland.C20.Proofs.update_object_frame",
         "Flatland.C20.Proofs.update_object_untouched",
-        "Flatland.C20.Proofs.set_by_object_reads_partial",
-        "Flatland.C20.Proofs.C20_full_fails",
+        "Flatland.C20.Proofs.set_by_object_reads",
+        "Flatland.C20.Proofs.C20_full_holds",
         "Flatland.C20.Proofs.set_by_object_values",
-        "Flatland.C20.Proofs.C20_sparse_fails",
+        "Flatland.C20.Proofs.object_roundtrip_final",
         "Flatland.C20.Proofs.object_roundtrip",
+        "Flatland.C20.Proofs.object_roundtrip_sparse",
     ]
     level_text = "proof"
     level_note = ("all clauses proved for every value type, field list, include/omit/rename and key function; "
-                  "'reads exactly' is proved under PlainRename (no duplicate rename sources, no non-field rename target that is "
-                  "itself a source) and its full form is refuted by a witness (KF-C20-a); member.set() is a parameter (C04)")
+                  "'reads exactly' is full (C20_full_holds) for Dict and SparseDict since fixes 2460dd6 / 29e8575; object_roundtrip has a "
+                  "Dict and a SparseDict form; member.set() is a parameter (C04)")
     technique = "Lean 4 theorems about a hand-written model + differential correspondence with /repo + Python oracle of spec B"
     trusted_base = [
         "Python objects modelled as attribute stores (plain attributes and properties whose getter returns or raises AttributeError); "
@@ -263,7 +285,7 @@ class C20(Property):
     rule = ("Dict schemas of 1-5 fields (70% String/String(strip=False)/Integer, 30% Boolean/Date/Time/DateTime/unsigned %04i Integer/Enum) with names from a pool (ASCII, case variants, "
             "prefix-related, non-ASCII), member values None/str/int/bool incl. padded and unadaptable (rich kinds: kind-appropriate texts, floats, Decimals, native dates/times); op in slice/update_object/"
             "set_by_object/roundtrip; include/omit each None, [] or 1-3 names (known, unknown, overlapping rename; 8% both -> TypeError); "
-            "rename None/{}/dict/pair list with sources and targets from fields+pool (collisions, chains, duplicate sources at low rate); "
+            "rename None/{}/dict/list/tuple/generator of pairs/keys()-only mapping with sources and targets from fields+pool (collisions, chains, duplicate sources at low rate); "
             "key function None or one of 7; objects with plain/property-backed/raising/absent attributes; policy subset/strict/duck; 15% SparseDict with each member "
             "present with probability 0.6. "
             "non-trivial = no exception and at least one of include/omit/rename/key supplied and a non-empty selection")
@@ -280,9 +302,14 @@ class C20(Property):
                {"name": "x", "prop": False, "present": True, "value": {"s": "X"}},
                {"name": "y", "prop": True, "present": True, "value": {"s": "Y"}}]
         return [
-            # open finding KF-C20-a: a rename target that is itself a rename source makes y be read
+            # fixed 2460dd6 (was KF-C20-a): a rename target that is itself a rename source made y be read
             {"op": "setby", "fields": f, "policy": "subset", "include": None, "omit": None,
              "rename": {"as": "pairs", "pairs": [["x", "a"], ["y", "x"]]}, "key": None, "obj": obj},
+            # a pair-list / generator rename must be usable twice inside set_by_object (candidate scan and keyslice_pairs)
+            {"op": "setby", "fields": f, "policy": "subset", "include": None, "omit": None,
+             "rename": {"as": "gen", "pairs": [["x", "a"]]}, "key": None, "obj": obj},
+            {"op": "setby", "fields": f, "policy": "subset", "include": ["b"], "omit": None,
+             "rename": {"as": "pairs", "pairs": [["x", "a"]]}, "key": None, "obj": obj},
             # pinned: include=[] means "not supplied"
             {"op": "slice", "fields": f, "policy": "subset", "include": [], "omit": None, "rename": None, "key": None, "obj": []},
             # renamed-and-omitted field is still emitted under the new key (planned drill of DESIGN 9.1)
@@ -292,7 +319,7 @@ class C20(Property):
             {"op": "slice", "fields": f, "policy": "subset", "include": ["B"], "omit": None,
              "rename": {"as": "dict", "pairs": [["A", "q"]]}, "key": {"fn": "upper"}, "obj": []},
             {"op": "update", "fields": f, "policy": "subset", "include": ["a"], "omit": ["b"], "rename": None, "key": None, "obj": obj},
-            # open finding KF-C20-b: a fresh SparseDict reads nothing from the object
+            # fixed 29e8575 (was KF-C20-b): a fresh SparseDict read nothing from the object
             {"op": "setby", "sparse": True, "fields": [dict(x, present=False) for x in f], "policy": "subset", "include": None,
              "omit": None, "rename": None, "key": None, "obj": obj},
             {"op": "slice", "sparse": True, "fields": [dict(f[0], present=True), dict(f[1], present=False)], "policy": "subset",
@@ -352,7 +379,7 @@ class C20(Property):
         if r < 0.35:
             return None
         if r < 0.40:
-            return {"as": rng.choice(["dict", "pairs"]), "pairs": []}
+            return {"as": rng.choice(["dict", "pairs", "tuple"]), "pairs": []}
         n = rng.randint(1, 3)
         pairs = []
         for _ in range(n):
@@ -363,8 +390,8 @@ class C20(Property):
                 src = rng.choice(fields * 3 + NAME_POOL)
                 dst = rng.choice(NAME_POOL * 2 + fields)
             pairs.append([src, dst])
-        as_ = rng.choice(["dict", "pairs"])
-        if as_ == "dict":  # a dict cannot carry duplicate sources
+        as_ = rng.choice(["dict", "dict", "pairs", "pairs", "tuple", "gen", "items"])
+        if as_ in ("dict", "items"):  # a dict cannot carry duplicate sources
             seen = {}
             for a, b in pairs:
                 seen[a] = b
@@ -430,7 +457,7 @@ class C20(Property):
         pairs = [[s, d] for s, d in zip(srcs, dsts)]
         if hostile and pairs and rng.random() < 0.5:
             pairs[0][1] = rng.choice(names)          # target collides with a field name
-        as_ = rng.choice(["dict", "pairs"])
+        as_ = rng.choice(["dict", "pairs", "tuple", "gen"])
         sel = rng.random()
         inc = om = None
         if sel < 0.35:
@@ -615,21 +642,8 @@ class C20(Property):
     # ------------------------------------------------------------ findings, coverage, shrinking
 
     def classify(self, case, failure):
-        if case.get("sparse") and failure.get("clause") in ("reads", "setby-values", "roundtrip", "strict-policy"):
-            # the members that exist when set_by_object runs: the case's present fields, or none for
-            # the fresh element of a roundtrip
-            absent = [f["name"] for f in case["fields"] if case["op"] == "roundtrip" or not f.get("present", True)]
-            if absent:
-                return "KF-C20-b"
-        if failure.get("clause") == "reads" and case.get("op") in ("setby",) and not (case.get("include") and case.get("omit")):
-            fields = [f["name"] for f in case["fields"]]
-            rmap = rename_map(case.get("rename"))
-            spec = ref_read_set(fields, case.get("omit"), rmap)
-            code = code_read_set(fields, case.get("omit"), case.get("rename"))
-            extra = code - spec
-            if (extra and not (spec - code) and set(failure.get("observed", [])) == code
-                    and all(k in rmap and rmap[k] not in fields for k in extra)):
-                return "KF-C20-a"
+        # no open findings: KF-C20-a (rename chains) and KF-C20-b (SparseDict) were repaired in /repo
+        # (2460dd6, 29e8575); their witnesses stay in the corpus
         return None
 
     def nontrivial(self, case, obs):
